@@ -77,7 +77,7 @@ func (z *ZodDiscriminatedUnion[T, R]) Parse(input any, ctx ...*core.ParseContext
 		if z.internals.DefaultFunc != nil {
 			input = z.internals.DefaultFunc()
 		} else if z.internals.DefaultValue != nil {
-			input = z.internals.DefaultValue
+			input = engine.CloneDefaultValue(z.internals.DefaultValue)
 		}
 	}
 
@@ -87,7 +87,7 @@ func (z *ZodDiscriminatedUnion[T, R]) Parse(input any, ctx ...*core.ParseContext
 			return z.Parse(z.internals.PrefaultFunc(), pctx)
 		}
 		if z.internals.PrefaultValue != nil {
-			return z.Parse(z.internals.PrefaultValue, pctx)
+			return z.Parse(engine.CloneDefaultValue(z.internals.PrefaultValue), pctx)
 		}
 		return zero, issues.CreateInvalidTypeError(core.ZodTypeObject, input, pctx)
 	}
